@@ -12,18 +12,19 @@ import threading
 
 
 class Execution:
-    __slots__ = ('choices', 'points', 'results', 'steps', 'hung')
+    __slots__ = ('choices', 'points', 'results', 'steps', 'hung', 'hot')
 
     def __init__(self):
         self.choices = []     # chosen index at each choice point
         self.points = []      # (kind, enabled_count, running_still_enabled)
+        self.hot = []         # per choice point: is it next to a step that wrote watched shared state (see Scheduler.watch)
         self.results = None
         self.steps = 0
         self.hung = False
 
 
 class Scheduler:
-    def __init__(self, ops, prefix, trace_prefix, opcode_functions=(), max_steps=200000):
+    def __init__(self, ops, prefix, trace_prefix, opcode_functions=(), max_steps=200000, watch=None, hot=None, learn=True):
         self.ops = ops
         self.n = len(ops)
         self.prefix = list(prefix)
@@ -37,6 +38,15 @@ class Scheduler:
         self.results = [None] * self.n
         self.max_steps = max_steps
         self.divergence = None
+        # conflict detection: `watch()` returns a cheap digest of the shared state the harness can see (caches, interpreter settings, module-level
+        # containers); a source line after which the digest differs is a writer and goes into `hot` (code locations, shared between executions)
+        self.watch = watch
+        self.hot = hot if hot is not None else set()
+        self.learn = learn
+        self.digest = None
+        self.prev_loc = None
+        self.prev_loc_of = [None] * self.n
+        self.cur_hot = False
 
     # ---- choice
     def _choose(self, kind, enabled, running_enabled):
@@ -50,6 +60,7 @@ class Scheduler:
             c = 0
         self.ex.choices.append(c)
         self.ex.points.append((kind, len(enabled), running_enabled))
+        self.ex.hot.append(self.cur_hot if kind == 'line' else False)
         return enabled[c]
 
     def _enabled(self, tid):
@@ -57,7 +68,19 @@ class Scheduler:
         rest = [i for i in range(self.n) if self.alive[i] and i != tid]
         return ([tid] if tid is not None and self.alive[tid] else []) + rest
 
-    def point(self, tid):
+    def point(self, tid, frame=None):
+        if frame is not None and (self.watch is not None or self.hot):
+            loc = (frame.f_code.co_filename, frame.f_lineno)
+            if self.watch is not None:
+                d = self.watch()
+                if d != self.digest:
+                    if self.learn and self.prev_loc is not None:
+                        self.hot.add(self.prev_loc)
+                    self.digest = d
+            # a preemption here separates the line just executed by this thread from the line it is about to execute
+            self.cur_hot = loc in self.hot or self.prev_loc_of[tid] in self.hot
+            self.prev_loc = loc
+            self.prev_loc_of[tid] = loc
         self.ex.steps += 1
         if self.ex.steps > self.max_steps:
             self.ex.hung = True
@@ -78,7 +101,7 @@ class Scheduler:
 
         def local(frame, event, arg):
             if event == 'line' or event == 'opcode':
-                self.point(tid)
+                self.point(tid, frame)
             return local
 
         def glob(frame, event, arg):
@@ -116,6 +139,8 @@ class Scheduler:
         ts = [threading.Thread(target=self._thread, args=(i,), daemon=True) for i in range(self.n)]
         for t in ts:
             t.start()
+        if self.watch is not None:
+            self.digest = self.watch()
         first = self._choose('start', list(range(self.n)), False) if self.n > 1 else 0
         self.running = first
         self.sems[first].release()
@@ -127,9 +152,11 @@ class Scheduler:
         return self.ex
 
 
-def explore(run, check, bound, first_dev=None, on_execution=None, max_executions=None):
+def explore(run, check, bound, first_dev=None, on_execution=None, max_executions=None, hot_only=False):
     """Depth-first over choice sequences.  run(prefix) -> Execution; check(ex) -> None | failure.
     bound = max preemptions.  first_dev = (lo, hi) restricts the index of the first deviating 'line' choice (for sharding).
+    hot_only: preempt only at points flagged in Execution.hot (next to a write of watched shared state); the free choices (which thread
+    starts, which continues when one ends) stay unrestricted.
     Returns dict(executions, choice_points, failures, capped)."""
     stats = {'executions': 0, 'choice_points': 0, 'failures': [], 'capped': False, 'max_points': 0}
 
@@ -162,6 +189,8 @@ def explore(run, check, bound, first_dev=None, on_execution=None, max_executions
                 li = line_index
                 line_index += 1
             if cost > bound:
+                continue
+            if hot_only and kind == 'line' and not (i < len(ex.hot) and ex.hot[i]):
                 continue
             if kind == 'line' and not had_dev and first_dev is not None and not (first_dev[0] <= li < first_dev[1]):
                 continue
